@@ -475,6 +475,7 @@ impl VhostUserFrontend for Frontend {
             return error_code(VhostUserError::BackendInternalError);
         } else if body_reply.size != body.size
             || body_reply.size as usize != buf.len()
+            || body_reply.size as usize != buf_reply.len()
             || body_reply.offset != body.offset
         {
             return error_code(VhostUserError::InvalidMessage);
@@ -855,15 +856,22 @@ impl FrontendInternal {
         }
         self.check_state()?;
 
-        let mut buf: Vec<u8> = vec![0; hdr.get_size() as usize - mem::size_of::<T>()];
-        let (reply, body, bytes, files) = self.main_sock.recv_payload_into_buf::<T>(&mut buf)?;
-        if !reply.is_reply_for(hdr)
-            || reply.get_size() as usize != mem::size_of::<T>() + bytes
-            || files.is_some()
-            || !body.is_valid()
-            || bytes != buf.len()
-        {
+        let (reply, body, files) = self.main_sock.recv_body::<T>()?;
+        if !reply.is_reply_for(hdr) || files.is_some() || !body.is_valid() {
             return Err(VhostUserError::InvalidMessage);
+        }
+        // The length of the reply's payload is given by the reply's own header: read exactly that
+        // much, so that a shorter reply (e.g. the zero-sized payload a backend uses to signal a
+        // failure) neither blocks forever nor swallows the beginning of the next message.
+        let payload_size = (reply.get_size() as usize)
+            .checked_sub(mem::size_of::<T>())
+            .ok_or(VhostUserError::InvalidMessage)?;
+        let (bytes, buf) = match payload_size {
+            0 => (0, Vec::new()),
+            len => self.main_sock.recv_data(len)?,
+        };
+        if bytes != payload_size {
+            return Err(VhostUserError::PartialMessage);
         }
 
         Ok((body, buf, files))
